@@ -550,6 +550,9 @@ def run(ctx, res):
     rule_kinds(ctx, res, ident)
     rule_tabs(ctx, res)
     rule_missing(ctx, res, ident)
+    from . import memo
+    memo.rule_no_incomplete_memo(ctx, res, 'R-C20-identity', P8,
+                                 '#include expansion')
     f = model.func(P8 + ':process_includes')
     n = splice.check_yield_loops(model, f, res)
     if n < 1:
